@@ -25,19 +25,11 @@ func NormalizeURL(URL *models.URL, parentURL *models.URL) (err error) {
 	if parentURL != nil && !parsedURL.IsAbs() {
 		// Determine the base with the following logic:
 		// - always with the <base> tag found in the HTML document, if it exists (TBI)
-		// - if the URL starts with a slash, use the parent URL's scheme and host
-		// - if the URL does not start with a slash, use the parent URL's scheme, host, and path
-		baseURL := parentURL.GetParsed()
-		if strings.HasPrefix(parsedURL.Path, "/") {
-			adaParse, err = goada.NewWithBase(URL.Raw, baseURL.Scheme+"://"+baseURL.Host)
-			if err != nil {
-				return err
-			}
-		} else {
-			adaParse, err = goada.NewWithBase(URL.Raw, baseURL.String())
-			if err != nil {
-				return err
-			}
+		// - otherwise the parent URL: the URL parser resolves every kind of relative
+		//   reference (path-absolute, path-relative, query-only, scheme-relative) against it
+		adaParse, err = goada.NewWithBase(URL.Raw, parentURL.GetParsed().String())
+		if err != nil {
+			return err
 		}
 	} else {
 		if parsedURL.Scheme == "" {
